@@ -64,17 +64,38 @@ func rewriteClock(fset *token.FileSet, filename string, src []byte) ([]byte, boo
 			}
 		}
 	}
-	if timeName == "" || timeName == "_" || timeName == "." {
-		return src, false, nil
-	}
+	hasTime := !(timeName == "" || timeName == "_" || timeName == ".")
 	changed := false
+	// mutex acquisitions in statement position become verifrt.Lock(&x) / verifrt.RLock(&x)
+	// (scheduling points of the cooperative replay scheduler; plain x.Lock() otherwise)
+	ast.Inspect(f, func(n ast.Node) bool {
+		es, ok := n.(*ast.ExprStmt)
+		if !ok {
+			return true
+		}
+		call, ok := es.X.(*ast.CallExpr)
+		if !ok || len(call.Args) != 0 {
+			return true
+		}
+		sel, ok := call.Fun.(*ast.SelectorExpr)
+		if !ok || (sel.Sel.Name != "Lock" && sel.Sel.Name != "RLock") {
+			return true
+		}
+		if _, isSel := sel.X.(*ast.SelectorExpr); !isSel {
+			return true // only field selectors (x.mu.Lock()), which is how Helios holds its mutexes
+		}
+		call.Fun = &ast.SelectorExpr{X: ast.NewIdent("verifrt"), Sel: ast.NewIdent(sel.Sel.Name)}
+		call.Args = []ast.Expr{&ast.UnaryExpr{Op: token.AND, X: sel.X}}
+		changed = true
+		return true
+	})
 	ast.Inspect(f, func(n ast.Node) bool {
 		sel, ok := n.(*ast.SelectorExpr)
 		if !ok {
 			return true
 		}
 		id, ok := sel.X.(*ast.Ident)
-		if !ok || id.Name != timeName || id.Obj != nil {
+		if !ok || !hasTime || id.Name != timeName || id.Obj != nil {
 			return true
 		}
 		if sel.Sel.Name == "Now" || sel.Sel.Name == "Since" {
@@ -95,7 +116,9 @@ func rewriteClock(fset *token.FileSet, filename string, src []byte) ([]byte, boo
 	if err := printer.Fprint(&buf, fset, f); err != nil {
 		return nil, false, err
 	}
-	buf.WriteString("\nvar _ = " + timeName + ".Second\n")
+	if hasTime {
+		buf.WriteString("\nvar _ = " + timeName + ".Second\n")
+	}
 	return buf.Bytes(), true, nil
 }
 
@@ -242,11 +265,26 @@ func TestVerifReplay(t *testing.T) {
 		for j, s := range c.Values {
 			fmt.Sscan(s, &vals[j])
 		}
-		verifrt.LoadValues(vals)
 		for len(c.Args) < 8 {
 			c.Args = append(c.Args, 0)
 		}
-		out := verifrt.Run(func() { f(c.Args) })
+		attempts := 1
+		if os.Getenv("VERIF_SCHED") != "" {
+			verifrt.Scheduled = true
+			fmt.Sscan(os.Getenv("VERIF_SCHED"), &attempts)
+		}
+		out := ""
+		for a := 0; a < attempts; a++ {
+			verifrt.LoadValues(vals)
+			if verifrt.Scheduled {
+				verifrt.SeedSchedule(uint64(a) + 1)
+			}
+			out = verifrt.Run(func() { f(c.Args) })
+			if out != "pass" && out != "assume" {
+				fmt.Printf("VERIF-ATTEMPT %d of %d\n", a+1, attempts)
+				break
+			}
+		}
 		tr, _ := json.Marshal(verifrt.Trace)
 		fmt.Printf("VERIF-OUTCOME %d %s\n", i, out)
 		fmt.Printf("VERIF-TRACE %d %s\n", i, tr)
@@ -274,6 +312,12 @@ func (n *NativeRunner) pkgDir(path string) string {
 
 // Run executes the cases (all of one package) natively.
 func (n *NativeRunner) Run(pkgPath string, cases []NativeCase, race bool, timeout time.Duration) ([]NativeOutcome, error) {
+	return n.RunSched(pkgPath, cases, race, timeout, 0)
+}
+
+// RunSched: schedAttempts > 0 runs the cases under verifrt's cooperative
+// scheduler, trying that many seeded schedules per case.
+func (n *NativeRunner) RunSched(pkgPath string, cases []NativeCase, race bool, timeout time.Duration, schedAttempts int) ([]NativeOutcome, error) {
 	if err := n.prepare(); err != nil {
 		return nil, err
 	}
@@ -300,6 +344,9 @@ func (n *NativeRunner) Run(pkgPath string, cases []NativeCase, race bool, timeou
 	cmd := exec.Command("go", args...)
 	cmd.Dir = n.P.RepoDir
 	cmd.Env = append(os.Environ(), "GOFLAGS=-mod=mod", "GOPROXY=off", "GOSUMDB=off", "GOTOOLCHAIN=local", "VERIF_CASES="+cf)
+	if schedAttempts > 0 {
+		cmd.Env = append(cmd.Env, fmt.Sprintf("VERIF_SCHED=%d", schedAttempts))
+	}
 	out, err := cmd.CombinedOutput()
 	txt := string(out)
 	res := make([]NativeOutcome, len(cases))
